@@ -177,6 +177,10 @@ void NTT_Goldilocks::NTT(Goldilocks::Element *dst, Goldilocks::Element *src, u_i
     {
         nblock = ncols;
     }
+    if (dst == NULL)
+    {
+        dst = src; // a null destination means in place, also when the columns are processed in blocks
+    }
 
     u_int64_t offset_cols = 0;
     u_int64_t ncols_block = ncols / nblock;
